@@ -79,6 +79,13 @@ MShl(m, k) == IF m = <<>> THEN m ELSE Shift(MMulSmall(m, 2^(k % LB)), k \div LB)
 RECURSIVE DivSmallFrom(_,_,_,_)
 DivSmallFrom(m, d, i, rem) == IF i = 0 THEN <<>> ELSE LET cur == rem * B + m[i] IN DivSmallFrom(m, d, i - 1, cur % d) \o <<cur \div d>>
 MDivSmall(m, d) == Trim(DivSmallFrom(m, d, Len(m), 0))
+RECURSIVE ModSmallFrom(_,_,_,_)
+ModSmallFrom(m, d, i, rem) == IF i = 0 THEN rem ELSE ModSmallFrom(m, d, i - 1, (rem * B + m[i]) % d)
+MModSmall(m, d) == ModSmallFrom(m, d, Len(m), 0)           \* d < B
+\* floor division of a signed integer by a small positive d: <<quotient (signed), remainder in 0..d-1>>
+FloorDivModSmall(x, d) == LET q0 == MDivSmall(x.m, d)  r0 == MModSmall(x.m, d) IN
+                          IF ~x.neg THEN <<Mk(FALSE, q0), r0>>
+                          ELSE IF r0 = 0 THEN <<Mk(TRUE, q0), 0>> ELSE <<Mk(TRUE, MAdd(q0, <<1>>)), d - r0>>
 MShr(m, k) == IF Len(m) <= k \div LB THEN <<>> ELSE MDivSmall(SubSeq(m, (k \div LB) + 1, Len(m)), 2^(k % LB))
 \* decimal digits (most significant first) <-> magnitude
 RECURSIVE MFromDigits(_,_,_)
